@@ -597,3 +597,419 @@ Proof.
     rewrite forallb_app in Hd. apply andb_true_iff in Hd. destruct Hd as [Hp _].
     rewrite (undo_reverse_order _ _ _ _ HK HN HU Hp Hs) in H. injection H as _ <-. reflexivity.
 Qed.
+
+(* ------------------------------------------------------------------ *)
+(* hwloc_diff_trees: when it is silent, when it says TOO_COMPLEX        *)
+
+Lemma ostr_eqb_eq a b : ostr_eqb a b = true <-> a = b.
+Proof.
+  destruct a as [x|], b as [y|]; cbn; try (split; [discriminate|intros E; discriminate E]); try tauto.
+  rewrite String.eqb_eq. split; [intros ->; reflexivity|intros E; injection E; auto].
+Qed.
+Lemma sets_eqb_eq a b : sets_eqb a b = true <-> a = b.
+Proof.
+  destruct a, b; unfold sets_eqb; cbn. rewrite !andb_true_iff, !ostr_eqb_eq.
+  split; [intros [[[-> ->] ->] ->]; reflexivity|intros E; injection E; auto].
+Qed.
+
+Definition fixed_part (a : oattr) := (a_depth a, a_type a, a_subtype a, a_os_index a, a_sets a).
+Lemma pre_differs_false a1 a2 : pre_differs a1 a2 = false <-> fixed_part a1 = fixed_part a2.
+Proof.
+  unfold pre_differs, fixed_part. rewrite !orb_false_iff, !negb_false_iff, Z.eqb_eq, !N.eqb_eq, ostr_eqb_eq, sets_eqb_eq.
+  split; [intros [[[[-> ->] ->] ->] ->]; reflexivity|intros E; injection E; auto].
+Qed.
+
+Lemma has_tc_app l1 l2 : has_tc (l1 ++ l2) = has_tc l1 || has_tc l2.
+Proof. unfold has_tc. apply existsb_app. Qed.
+
+Lemma name_diff_notc a1 a2 : has_tc (name_diff a1 a2) = false.
+Proof. unfold name_diff. destruct (ostr_eqb _ _); reflexivity. Qed.
+Lemma name_diff_nil a1 a2 : name_diff a1 a2 = [] <-> a_name a1 = a_name a2.
+Proof.
+  unfold name_diff. destruct (ostr_eqb (a_name a1) (a_name a2)) eqn:E.
+  - apply ostr_eqb_eq in E. tauto.
+  - split; [discriminate|]. intros E'. apply ostr_eqb_eq in E'. congruence.
+Qed.
+
+Lemma type_attr_notc a1 a2 : has_tc (fst (type_attr_diff a1 a2)) = false.
+Proof.
+  unfold type_attr_diff. destruct (is_numa _); [destruct (_ =? _)%N; reflexivity|]. destruct (is_memcmp_type _); reflexivity.
+Qed.
+
+Lemma infos_walk_notc d i l1 : forall l2, has_tc (fst (infos_walk d i l1 l2)) = false.
+Proof.
+  induction l1 as [|[n1 v1] r1 IH]; intros [|[n2 v2] r2]; cbn [infos_walk]; try reflexivity.
+  destruct (negb (String.eqb n1 n2)); [reflexivity|]. specialize (IH r2).
+  destruct (infos_walk d i r1 r2) as [e tc]. cbn [fst] in *. rewrite has_tc_app, IH.
+  destruct (String.eqb v1 v2); reflexivity.
+Qed.
+Lemma infos_diff_notc d i l1 l2 : has_tc (fst (infos_diff d i l1 l2)) = false.
+Proof. unfold infos_diff. destruct (negb _); [reflexivity|apply infos_walk_notc]. Qed.
+
+(* stage "infos": too complex iff the name lists differ; silent iff the lists are equal *)
+Lemma infos_diff_tc d i l1 l2 : snd (infos_diff d i l1 l2) = false <-> map fst l1 = map fst l2.
+Proof.
+  unfold infos_diff. destruct (Nat.eqb (List.length l1) (List.length l2)) eqn:El; cbn [negb].
+  - apply Nat.eqb_eq in El. revert l2 El. induction l1 as [|[n1 v1] r1 IH]; intros [|[n2 v2] r2] El; cbn in El; try discriminate.
+    + cbn. tauto.
+    + cbn [infos_walk map fst]. destruct (String.eqb n1 n2) eqn:En; cbn [negb].
+      * apply String.eqb_eq in En. subst. specialize (IH r2 (eq_add_S _ _ El)).
+        destruct (infos_walk d i r1 r2) as [e tc]. cbn [snd] in *. rewrite IH.
+        split; [intros ->; reflexivity|intros E; injection E; auto].
+      * cbn [snd]. split; [discriminate|]. intros E. injection E as E _. subst. rewrite String.eqb_refl in En. discriminate.
+  - cbn [snd]. split; [discriminate|]. intros E. apply (f_equal (@List.length _)) in E. rewrite !map_length in E.
+    apply Nat.eqb_neq in El. contradiction.
+Qed.
+Lemma infos_diff_nil d i l1 l2 : infos_diff d i l1 l2 = ([], false) <-> l1 = l2.
+Proof.
+  unfold infos_diff. destruct (Nat.eqb (List.length l1) (List.length l2)) eqn:El; cbn [negb].
+  - apply Nat.eqb_eq in El. revert l2 El. induction l1 as [|[n1 v1] r1 IH]; intros [|[n2 v2] r2] El; cbn in El; try discriminate.
+    + cbn. tauto.
+    + cbn [infos_walk]. destruct (String.eqb n1 n2) eqn:En; cbn [negb].
+      * apply String.eqb_eq in En. subst. specialize (IH r2 (eq_add_S _ _ El)).
+        destruct (infos_walk d i r1 r2) as [e tc]. destruct (String.eqb v1 v2) eqn:Ev.
+        -- apply String.eqb_eq in Ev. subst. cbn [app]. rewrite IH. split; [intros ->; reflexivity|intros E; injection E; auto].
+        -- cbn [app]. split; [discriminate|]. intros E. injection E as E _. subst. rewrite String.eqb_refl in Ev. discriminate.
+      * split; [discriminate|]. intros E. injection E as E _ _. subst. rewrite String.eqb_refl in En. discriminate.
+  - split; [discriminate|]. intros ->. rewrite Nat.eqb_refl in El. discriminate.
+Qed.
+
+(* stage "children" *)
+Lemma walk_spec {A} (f : A -> A -> list entry) l1 : forall l2,
+  (snd (walk f l1 l2) = false <-> List.length l1 = List.length l2) /\
+  (snd (walk f l1 l2) = false -> fst (walk f l1 l2) = List.concat (map (fun p => f (fst p) (snd p)) (combine l1 l2))).
+Proof.
+  induction l1 as [|x r1 IH]; intros [|y r2]; cbn [walk snd fst List.length combine map List.concat].
+  - split; [tauto|reflexivity].
+  - split; [split; discriminate|discriminate].
+  - split; [split; discriminate|discriminate].
+  - destruct (IH r2) as [H1 H2]. destruct (walk f r1 r2) as [e tc]. cbn [fst snd] in *. split.
+    + rewrite H1. split; [intros ->; reflexivity|intros E; injection E; auto].
+    + intros Htc. rewrite (H2 Htc). reflexivity.
+Qed.
+
+Lemma seq_stage_snd p k : snd (seq_stage p k) = false <-> snd p = false /\ snd k = false.
+Proof. unfold seq_stage. destruct p as [e [|]]; cbn; [split; [discriminate|intros [H _]; discriminate H]|tauto]. Qed.
+Lemma seq_stage_fst p k : snd p = false -> fst (seq_stage p k) = fst p ++ fst k.
+Proof. unfold seq_stage. destruct p as [e [|]]; cbn; [discriminate|reflexivity]. Qed.
+
+Lemma has_tc_concat (l : list (list entry)) : has_tc (List.concat l) = false <-> Forall (fun d => has_tc d = false) l.
+Proof.
+  induction l as [|d r IH]; cbn [List.concat]; [split; [constructor|reflexivity]|].
+  rewrite has_tc_app, orb_false_iff, IH. split; [intros [H1 H2]; constructor; assumption|intros H; inversion H; auto].
+Qed.
+Lemma concat_nil_iff {A} (l : list (list A)) : List.concat l = [] <-> Forall (fun d => d = []) l.
+Proof.
+  induction l as [|d r IH]; cbn [List.concat]; [split; [constructor|reflexivity]|].
+  split.
+  - intros H. apply app_eq_nil in H. destruct H as [-> H]. constructor; [reflexivity|apply IH; exact H].
+  - intros H. inversion H; subst. cbn. apply IH. assumption.
+Qed.
+
+(* the list of children, pairwise *)
+Lemma kids_iff (f : oattr -> oattr) (R : obj -> obj -> Prop) l1 :
+  Forall (fun o1 => forall o2, R o1 o2 <-> tmap f o1 = tmap f o2) l1 ->
+  forall l2, (List.length l1 = List.length l2 /\ Forall (fun p => R (fst p) (snd p)) (combine l1 l2)) <->
+             map (tmap f) l1 = map (tmap f) l2.
+Proof.
+  intros HF. induction HF as [|x r1 Hx _ IH]; intros [|y r2]; cbn [List.length combine map].
+  - split; [reflexivity|split; [reflexivity|constructor]].
+  - split; [intros [E _]; discriminate E|discriminate].
+  - split; [intros [E _]; discriminate E|discriminate].
+  - split.
+    + intros [El Hall]. inversion Hall as [|? ? Hh Ht]; subst. cbn [fst snd] in Hh. f_equal; [apply Hx; exact Hh|].
+      apply IH. split; [auto|exact Ht].
+    + intros E. injection E as E1 E2. apply IH in E2. destruct E2 as [El Hall]. split; [auto|].
+      constructor; [apply Hx; exact E1|exact Hall].
+Qed.
+
+Definition stages (a1 a2 : oattr) (c1 c2 m1 m2 i1 i2 x1 x2 : list obj) : stage :=
+  seq_stage (name_stage false a1 a2)
+ (seq_stage (type_attr_diff a1 a2)
+ (seq_stage (infos_diff (a_depth a1) (a_lidx a1) (a_infos a1) (a_infos a2))
+ (seq_stage (walk diff_trees c1 c2)
+ (seq_stage (walk diff_trees m1 m2)
+ (seq_stage (walk diff_trees i1 i2)
+            (walk diff_trees x1 x2)))))).
+
+Lemma diff_trees_unfold a1 c1 m1 i1 x1 a2 c2 m2 i2 x2 :
+  diff_trees (Obj a1 c1 m1 i1 x1) (Obj a2 c2 m2 i2 x2) =
+  if pre_differs a1 a2 then [ETooComplex (a_depth a1) (a_lidx a1)]
+  else let r := stages a1 a2 c1 c2 m1 m2 i1 i2 x1 x2 in
+       if snd r then fst r ++ [ETooComplex (a_depth a1) (a_lidx a1)] else fst r.
+Proof. reflexivity. Qed.
+
+Lemma skel_attr_eq a1 a2 :
+  skel_attr a1 = skel_attr a2 <->
+  fixed_part a1 = fixed_part a2 /\ snd (type_attr_diff a1 a2) = false /\ map fst (a_infos a1) = map fst (a_infos a2).
+Proof.
+  unfold skel_attr, skel_attr_gen, fixed_part, type_attr_diff. split.
+  - intros E. injection E as E1 E2 E3 E4 E5 E6 E7. rewrite E1, E2, E3, E4, E5. split; [reflexivity|]. split.
+    + destruct (is_numa (a_type a2)); [reflexivity|]. rewrite E2 in E6.
+      destruct (is_memcmp_type (a_type a2)); [|reflexivity]. cbn [snd]. rewrite E6, String.eqb_refl. reflexivity.
+    + apply (f_equal (map fst)) in E7. rewrite !map_map in E7. exact E7.
+  - intros (E & Ht & Hi). injection E as E1 E2 E3 E4 E5. rewrite E1, E2, E3, E4, E5. f_equal.
+    + rewrite E2 in Ht. destruct (is_numa (a_type a2)) eqn:En.
+      * assert (is_memcmp_type (a_type a2) = false) as ->; [|reflexivity].
+        apply is_numa_true in En. rewrite En. reflexivity.
+      * destruct (is_memcmp_type (a_type a2)); [|reflexivity]. cbn [snd] in Ht. apply negb_false_iff, String.eqb_eq in Ht. exact Ht.
+    + rewrite <- !(map_map fst (fun n => (n, EmptyString))). rewrite Hi. reflexivity.
+Qed.
+
+Lemma Obj_eq_inv a c m i x a' c' m' i' x' :
+  Obj a c m i x = Obj a' c' m' i' x' -> a = a' /\ c = c' /\ m = m' /\ i = i' /\ x = x'.
+Proof. intros E. injection E. auto. Qed.
+
+Theorem diff_trees_tc_iff : forall o1 o2, has_tc (diff_trees o1 o2) = false <-> skel o1 = skel o2.
+Proof.
+  apply (obj_ind' (fun o1 => forall o2, has_tc (diff_trees o1 o2) = false <-> skel o1 = skel o2)).
+  intros a1 c1 m1 i1 x1 Hc Hm Hi Hx [a2 c2 m2 i2 x2]. rewrite diff_trees_unfold. unfold skel. cbn [tmap].
+  assert (K : forall l1 l2, Forall (fun o1 => forall o2, has_tc (diff_trees o1 o2) = false <-> skel o1 = skel o2) l1 ->
+     ((snd (walk diff_trees l1 l2) = false /\ has_tc (fst (walk diff_trees l1 l2)) = false) <->
+      map (tmap skel_attr) l1 = map (tmap skel_attr) l2)).
+  { intros l1 l2 HF. rewrite <- (kids_iff skel_attr (fun a b => has_tc (diff_trees a b) = false) l1 HF l2).
+    destruct (walk_spec diff_trees l1 l2) as [W1 W2]. rewrite <- W1. split.
+    - intros [Hs Ht]. split; [exact Hs|]. rewrite (W2 Hs) in Ht. apply has_tc_concat in Ht.
+      apply Forall_map in Ht. exact Ht.
+    - intros [Hs Ht]. split; [exact Hs|]. rewrite (W2 Hs). apply has_tc_concat. apply Forall_map. exact Ht. }
+  destruct (pre_differs a1 a2) eqn:Epre.
+  - cbn. split; [discriminate|]. intros E. apply Obj_eq_inv in E. destruct E as [E _]. apply skel_attr_eq in E. destruct E as [E _].
+    apply pre_differs_false in E. congruence.
+  - apply pre_differs_false in Epre. cbv zeta.
+    set (r := stages a1 a2 c1 c2 m1 m2 i1 i2 x1 x2).
+    assert (R : (snd r = false /\ has_tc (fst r) = false) <->
+                (snd (type_attr_diff a1 a2) = false /\ map fst (a_infos a1) = map fst (a_infos a2)) /\
+                map (tmap skel_attr) c1 = map (tmap skel_attr) c2 /\ map (tmap skel_attr) m1 = map (tmap skel_attr) m2 /\
+                map (tmap skel_attr) i1 = map (tmap skel_attr) i2 /\ map (tmap skel_attr) x1 = map (tmap skel_attr) x2).
+    { rewrite <- (K c1 c2 Hc), <- (K m1 m2 Hm), <- (K i1 i2 Hi), <- (K x1 x2 Hx).
+      rewrite <- (infos_diff_tc (a_depth a1) (a_lidx a1)).
+      unfold r, stages, name_stage. cbn [andb].
+      split.
+      - intros [Hs Ht]. repeat (apply seq_stage_snd in Hs; let H := fresh "S" in destruct Hs as [H Hs]).
+        repeat (rewrite seq_stage_fst in Ht by assumption; rewrite has_tc_app in Ht; apply orb_false_iff in Ht;
+                let H := fresh "T" in destruct Ht as [H Ht]).
+        tauto.
+      - intros ((A1 & A2) & (B1 & B2) & (C1 & C2) & (D1 & D2) & (E1 & E2)). split.
+        + repeat (apply seq_stage_snd; split; try assumption). reflexivity.
+        + repeat (rewrite seq_stage_fst by (try assumption; reflexivity); rewrite has_tc_app; apply orb_false_iff; split;
+                  [first [assumption|apply name_diff_notc|apply type_attr_notc|apply infos_diff_notc]|]).
+          assumption. }
+    destruct (snd r) eqn:Es.
+    + rewrite has_tc_app. cbn [has_tc existsb is_tc]. rewrite orb_true_r. split; [discriminate|].
+      intros E. apply Obj_eq_inv in E. destruct E as (E0 & E1 & E2 & E3 & E4). apply skel_attr_eq in E0. destruct E0 as (_ & F1 & F2).
+      assert (X : true = false /\ has_tc (fst r) = false) by (apply R; tauto). destruct X as [X _]. discriminate X.
+    + split.
+      * intros Ht. assert (X : false = false /\ has_tc (fst r) = false) by tauto. apply R in X.
+        destruct X as ((F1 & F2) & G1 & G2 & G3 & G4). f_equal; try assumption. apply skel_attr_eq. tauto.
+      * intros E. apply Obj_eq_inv in E. destruct E as (E0 & E1 & E2 & E3 & E4). apply skel_attr_eq in E0. destruct E0 as (_ & F1 & F2).
+        assert (X : false = false /\ has_tc (fst r) = false) by (apply R; tauto). tauto.
+Qed.
+
+Lemma seq_stage_nil p k : seq_stage p k = ([], false) <-> p = ([], false) /\ k = ([], false).
+Proof.
+  unfold seq_stage. destruct p as [e [|]], k as [e' t']; cbn [fst snd].
+  - split; [discriminate|intros [H _]; discriminate H].
+  - split.
+    + intros E. injection E as E ->. apply app_eq_nil in E. destruct E as [-> ->]. auto.
+    + intros [E1 E2]. injection E1 as ->. injection E2 as -> ->. reflexivity.
+Qed.
+
+Lemma walk_nil {A} (f : A -> A -> list entry) l1 : forall l2,
+  walk f l1 l2 = ([], false) <-> List.length l1 = List.length l2 /\ Forall (fun p => f (fst p) (snd p) = []) (combine l1 l2).
+Proof.
+  intros l2. destruct (walk_spec f l1 l2) as [W1 W2]. split.
+  - intros E. assert (Hs : snd (walk f l1 l2) = false) by (rewrite E; reflexivity). split; [apply W1; exact Hs|].
+    specialize (W2 Hs). rewrite E in W2. cbn [fst] in W2. symmetry in W2. apply concat_nil_iff in W2.
+    apply Forall_map in W2. exact W2.
+  - intros [El Hall]. apply W1 in El. specialize (W2 El). destruct (walk f l1 l2) as [e tc]. cbn [fst snd] in *. subst tc.
+    f_equal. rewrite W2. apply concat_nil_iff. apply Forall_map. exact Hall.
+Qed.
+
+Lemma type_attr_nil a1 a2 : a_type a1 = a_type a2 ->
+  (type_attr_diff a1 a2 = ([], false) <->
+   (if is_numa (a_type a1) then a_lmem a1 else 0%N) = (if is_numa (a_type a2) then a_lmem a2 else 0%N) /\
+   (if is_memcmp_type (a_type a1) then a_tattr a1 else EmptyString) = (if is_memcmp_type (a_type a2) then a_tattr a2 else EmptyString)).
+Proof.
+  intros Et. unfold type_attr_diff. rewrite <- Et. destruct (is_numa (a_type a1)) eqn:En.
+  - assert (is_memcmp_type (a_type a1) = false) as -> by (apply is_numa_true in En; rewrite En; reflexivity).
+    destruct (a_lmem a1 =? a_lmem a2)%N eqn:El.
+    + apply N.eqb_eq in El. tauto.
+    + split; [discriminate|]. intros [E _]. apply N.eqb_neq in El. contradiction.
+  - destruct (is_memcmp_type (a_type a1)).
+    + destruct (String.eqb (a_tattr a1) (a_tattr a2)) eqn:Es; cbn [negb].
+      * apply String.eqb_eq in Es. tauto.
+      * split; [discriminate|]. intros [_ E]. apply String.eqb_neq in Es. contradiction.
+    + tauto.
+Qed.
+
+Lemma erase_attr_eq a1 a2 :
+  erase_attr a1 = erase_attr a2 <->
+  fixed_part a1 = fixed_part a2 /\ a_name a1 = a_name a2 /\ type_attr_diff a1 a2 = ([], false) /\ a_infos a1 = a_infos a2.
+Proof.
+  unfold erase_attr, fixed_part. split.
+  - intros E. injection E as E1 E2 E3 E4 E5 E6 E7 E8 E9. rewrite E1, E2, E3, E4, E5. repeat split; try assumption.
+    apply type_attr_nil; [exact E2|]. split; assumption.
+  - intros (E & En & Et & Ei). injection E as E1 E2 E3 E4 E5. apply type_attr_nil in Et; [|exact E2]. destruct Et as [Et1 Et2].
+    rewrite E1, E3, E4, E5, En, Ei, Et1, Et2. rewrite E2. reflexivity.
+Qed.
+
+Theorem diff_trees_nil_iff : forall o1 o2, diff_trees o1 o2 = [] <-> erase o1 = erase o2.
+Proof.
+  apply (obj_ind' (fun o1 => forall o2, diff_trees o1 o2 = [] <-> erase o1 = erase o2)).
+  intros a1 c1 m1 i1 x1 Hc Hm Hi Hx [a2 c2 m2 i2 x2]. rewrite diff_trees_unfold. unfold erase. cbn [tmap].
+  assert (K : forall l1 l2, Forall (fun o1 => forall o2, diff_trees o1 o2 = [] <-> erase o1 = erase o2) l1 ->
+     (walk diff_trees l1 l2 = ([], false) <-> map (tmap erase_attr) l1 = map (tmap erase_attr) l2)).
+  { intros l1 l2 HF. rewrite <- (kids_iff erase_attr (fun a b => diff_trees a b = []) l1 HF l2). apply walk_nil. }
+  destruct (pre_differs a1 a2) eqn:Epre.
+  - split; [discriminate|]. intros E. apply Obj_eq_inv in E. destruct E as [E _]. apply erase_attr_eq in E. destruct E as [E _].
+    apply pre_differs_false in E. congruence.
+  - apply pre_differs_false in Epre. cbv zeta.
+    set (r := stages a1 a2 c1 c2 m1 m2 i1 i2 x1 x2).
+    assert (R : r = ([], false) <->
+                (a_name a1 = a_name a2 /\ type_attr_diff a1 a2 = ([], false) /\ a_infos a1 = a_infos a2) /\
+                map (tmap erase_attr) c1 = map (tmap erase_attr) c2 /\ map (tmap erase_attr) m1 = map (tmap erase_attr) m2 /\
+                map (tmap erase_attr) i1 = map (tmap erase_attr) i2 /\ map (tmap erase_attr) x1 = map (tmap erase_attr) x2).
+    { rewrite <- (K c1 c2 Hc), <- (K m1 m2 Hm), <- (K i1 i2 Hi), <- (K x1 x2 Hx).
+      rewrite <- (infos_diff_nil (a_depth a1) (a_lidx a1)), <- name_diff_nil.
+      unfold r, stages, name_stage. cbn [andb]. rewrite !seq_stage_nil.
+      split.
+      - intros (A & B & C & D & E & F & G). injection A as A. tauto.
+      - intros ((A & B & C) & D & E & F & G). rewrite A. tauto. }
+    destruct r as [e [|]] eqn:Er; cbn [fst snd].
+    + split; [intros E; apply app_eq_nil in E; destruct E as [_ E]; discriminate E|].
+      intros E. apply Obj_eq_inv in E. destruct E as (E0 & E1 & E2 & E3 & E4). apply erase_attr_eq in E0.
+      assert (X : (e, true) = ([], false)) by (apply R; tauto). discriminate X.
+    + split.
+      * intros ->. assert (X : ([] : list entry, false) = ([], false)) by reflexivity. apply R in X.
+        destruct X as ((F1 & F2 & F3) & G1 & G2 & G3 & G4). f_equal; try assumption. apply erase_attr_eq. tauto.
+      * intros E. apply Obj_eq_inv in E. destruct E as (E0 & E1 & E2 & E3 & E4). apply erase_attr_eq in E0.
+        assert (X : (e, false) = ([], false)) by (apply R; tauto). injection X. auto.
+Qed.
+
+(* ------------------------------------------------------------------ *)
+(* hwloc_topology_diff_build                                            *)
+
+Lemma strs_eqb_eq l1 : forall l2, strs_eqb l1 l2 = true <-> l1 = l2.
+Proof.
+  induction l1 as [|x r IH]; intros [|y r2]; cbn [strs_eqb]; try (split; [discriminate|intros E; discriminate E]); [tauto|].
+  rewrite andb_true_iff, String.eqb_eq, IH. split; [intros [-> ->]; reflexivity|intros E; injection E; auto].
+Qed.
+
+Lemma dists_differ_spec l1 : forall l2, dists_differ l1 l2 = false <-> l1 = l2 /\ forallb (fun p => negb (fst p)) l1 = true.
+Proof.
+  induction l1 as [|[h1 p1] r IH]; intros [|[h2 p2] r2]; cbn [dists_differ forallb fst].
+  - tauto.
+  - split; [discriminate|intros [E _]; discriminate E].
+  - split; [discriminate|intros [E _]; discriminate E].
+  - destruct h1, h2; cbn [orb negb andb]; try (split; [discriminate|intros [E F]; try discriminate E; try discriminate F]).
+    destruct (String.eqb p1 p2) eqn:Ep; cbn [negb].
+    + apply String.eqb_eq in Ep. subst. rewrite IH. split; [intros [-> F]; auto|intros [E F]; injection E; auto].
+    + split; [discriminate|]. intros [E _]. injection E as E _. subst. rewrite String.eqb_refl in Ep. discriminate.
+Qed.
+
+(* what the topology-level part of the function compares, as the code does it *)
+Definition top_same (A B : topo) : Prop :=
+  (t_allowed_cpuset A = t_allowed_cpuset B /\ t_allowed_nodeset A = t_allowed_nodeset B) /\
+  dists_differ (t_dists A) (t_dists B) = false /\
+  memattrs_cmp false (t_memattrs A) (t_memattrs B) = Some false /\
+  t_cpukinds A = t_cpukinds B.
+
+Lemma allowed_same A B :
+  negb (ostr_eqb (t_allowed_cpuset A) (t_allowed_cpuset B)) || negb (ostr_eqb (t_allowed_nodeset A) (t_allowed_nodeset B)) = false <->
+  t_allowed_cpuset A = t_allowed_cpuset B /\ t_allowed_nodeset A = t_allowed_nodeset B.
+Proof. rewrite orb_false_iff, !negb_false_iff, !ostr_eqb_eq. tauto. Qed.
+
+Theorem build_zero_iff A B :
+  diff_build 0 A B = BRet 0 [] <->
+  erase (t_root A) = erase (t_root B) /\ t_infos A = t_infos B /\ top_same A B.
+Proof.
+  unfold diff_build, diff_build_gen, top_same. cbn [N.eqb negb].
+  change (diff_trees_gen false) with diff_trees.
+  rewrite <- diff_trees_nil_iff, <- (infos_diff_nil (t_nbl A) 0), <- allowed_same, <- (strs_eqb_eq (t_cpukinds A)).
+  set (d := diff_trees (t_root A) (t_root B)).
+  destruct (has_tc d) eqn:Etc.
+  { split; [discriminate|]. intros [E _]. rewrite E in Etc. discriminate. }
+  destruct (negb (ostr_eqb (t_allowed_cpuset A) (t_allowed_cpuset B)) || negb (ostr_eqb (t_allowed_nodeset A) (t_allowed_nodeset B))).
+  { split; [discriminate|]. intros (_ & _ & E & _). discriminate E. }
+  destruct (infos_diff (t_nbl A) 0 (t_infos A) (t_infos B)) as [ti [|]] eqn:Ei.
+  { split; [discriminate|]. intros (_ & E & _). discriminate E. }
+  destruct (dists_differ (t_dists A) (t_dists B)).
+  { split; [discriminate|]. intros (_ & _ & _ & E & _). discriminate E. }
+  destruct (memattrs_cmp false (t_memattrs A) (t_memattrs B)) as [[|]|].
+  - split; [discriminate|]. intros (_ & _ & _ & _ & E & _). discriminate E.
+  - destruct (strs_eqb (t_cpukinds A) (t_cpukinds B)); cbn [negb].
+    + split.
+      * intros E. injection E as E. apply app_eq_nil in E. destruct E as [-> ->]. tauto.
+      * intros (-> & E & _). injection E as ->. reflexivity.
+    + split; [discriminate|]. intros (_ & _ & _ & _ & _ & E). discriminate E.
+  - split; [discriminate|]. intros (_ & _ & _ & _ & E & _). discriminate E.
+Qed.
+
+(* rc is 0 or 1, and 1 exactly when the list holds a TOO_COMPLEX entry *)
+Theorem build_rc A B rc d : diff_build 0 A B = BRet rc d -> (rc = 1%Z /\ has_tc d = true) \/ (rc = 0%Z /\ has_tc d = false).
+Proof.
+  unfold diff_build, diff_build_gen. cbn [N.eqb negb]. change (diff_trees_gen false) with diff_trees.
+  set (d0 := diff_trees (t_root A) (t_root B)).
+  assert (Htcend : forall l, has_tc (l ++ [ETooComplex (a_depth (oa (t_root A))) (a_lidx (oa (t_root A)))]) = true).
+  { intros l. rewrite has_tc_app. cbn. apply orb_true_r. }
+  destruct (has_tc d0) eqn:Etc; [intros E; injection E as <- <-; auto|].
+  destruct (_ || _); [intros E; injection E as <- <-; left; split; [reflexivity|apply Htcend]|].
+  pose proof (infos_diff_notc (t_nbl A) 0 (t_infos A) (t_infos B)) as Hti.
+  destruct (infos_diff (t_nbl A) 0 (t_infos A) (t_infos B)) as [ti [|]]; cbn [fst] in Hti.
+  { intros E; injection E as <- <-. left. split; [reflexivity|]. rewrite app_assoc. apply Htcend. }
+  destruct (dists_differ _ _). { intros E; injection E as <- <-. left. split; [reflexivity|]. rewrite app_assoc. apply Htcend. }
+  destruct (memattrs_cmp _ _ _) as [[|]|]; try discriminate.
+  { intros E; injection E as <- <-. left. split; [reflexivity|]. rewrite app_assoc. apply Htcend. }
+  destruct (negb _). { intros E; injection E as <- <-. left. split; [reflexivity|]. rewrite app_assoc. apply Htcend. }
+  intros E; injection E as <- <-. right. split; [reflexivity|]. rewrite has_tc_app, Etc, Hti. reflexivity.
+Qed.
+
+(* what a diff can express: everything but names, info values and NUMA local memory is equal *)
+Definition expressible (A B : topo) : Prop :=
+  skel (t_root A) = skel (t_root B) /\ map fst (t_infos A) = map fst (t_infos B) /\ top_same A B.
+
+Theorem build_toocomplex_iff A B :
+  memattrs_cmp false (t_memattrs A) (t_memattrs B) <> None ->
+  ((exists d, diff_build 0 A B = BRet 1 d) <-> ~ expressible A B) /\
+  ((exists d, diff_build 0 A B = BRet 0 d) <-> expressible A B).
+Proof.
+  intros Hm. unfold diff_build, diff_build_gen, expressible, top_same. cbn [N.eqb negb].
+  change (diff_trees_gen false) with diff_trees.
+  rewrite <- diff_trees_tc_iff, <- (infos_diff_tc (t_nbl A) 0), <- allowed_same, <- (strs_eqb_eq (t_cpukinds A)).
+  set (d := diff_trees (t_root A) (t_root B)).
+  destruct (has_tc d) eqn:Etc.
+  { split; split; try (intros _; eauto; fail).
+    - intros _ [E _]. discriminate E.
+    - intros [d' E]. discriminate E.
+    - intros [E _]. discriminate E. }
+  destruct (negb (ostr_eqb (t_allowed_cpuset A) (t_allowed_cpuset B)) || negb (ostr_eqb (t_allowed_nodeset A) (t_allowed_nodeset B))).
+  { split; split; try (intros _; eauto; fail).
+    - intros _ (_ & _ & E & _). discriminate E.
+    - intros [d' E]. discriminate E.
+    - intros (_ & _ & E & _). discriminate E. }
+  destruct (infos_diff (t_nbl A) 0 (t_infos A) (t_infos B)) as [ti [|]] eqn:Ei; cbn [snd].
+  { split; split; try (intros _; eauto; fail).
+    - intros _ (_ & E & _). discriminate E.
+    - intros [d' E]. discriminate E.
+    - intros (_ & E & _). discriminate E. }
+  destruct (dists_differ (t_dists A) (t_dists B)).
+  { split; split; try (intros _; eauto; fail).
+    - intros _ (_ & _ & _ & E & _). discriminate E.
+    - intros [d' E]. discriminate E.
+    - intros (_ & _ & _ & E & _). discriminate E. }
+  destruct (memattrs_cmp false (t_memattrs A) (t_memattrs B)) as [[|]|]; [| |contradiction].
+  { split; split; try (intros _; eauto; fail).
+    - intros _ (_ & _ & _ & _ & E & _). discriminate E.
+    - intros [d' E]. discriminate E.
+    - intros (_ & _ & _ & _ & E & _). discriminate E. }
+  destruct (strs_eqb (t_cpukinds A) (t_cpukinds B)); cbn [negb].
+  - split; split.
+    + intros [d' E]. discriminate E.
+    + intros H. exfalso. apply H. tauto.
+    + intros _. tauto.
+    + intros _. eauto.
+  - split; split; try (intros _; eauto; fail).
+    + intros _ (_ & _ & _ & _ & _ & E). discriminate E.
+    + intros [d' E]. discriminate E.
+    + intros (_ & _ & _ & _ & _ & E). discriminate E.
+Qed.
